@@ -230,6 +230,23 @@ func Library() []*Session {
 			many = append(many, sim.NewTx(sim.TChatSend, 0, sim.Fld(sim.FData, []byte(fmt.Sprintf("m%d", i)))))
 		}
 	}
+	// pipelined sessions: the login and everything after it can sit in the server's buffer at once
+	pipe := func(n, msg int) []sim.Tx {
+		var ts []sim.Tx
+		for i := 0; i < n; i++ {
+			switch i % 4 {
+			case 0:
+				ts = append(ts, sim.NewTx(sim.TChatSend, 0, sim.Fld(sim.FData, text(msg+i, byte(i)))))
+			case 1:
+				ts = append(ts, sim.NewTx(sim.TGetUserNameList, 0))
+			case 2:
+				ts = append(ts, sim.NewTx(sim.TOldPostNews, 0, sim.Fld(sim.FData, text(msg+2*i, byte(i+50)))))
+			default:
+				ts = append(ts, sim.NewTx(sim.TGetFileNameList, 0))
+			}
+		}
+		return ts
+	}
 	fupPayload := func() []part {
 		ps := []part{mk("ITEMD", itemHeader(true, "sub"))}
 		ps = append(ps, mk("ITEMF", itemHeader(false, "a.txt")))
@@ -275,6 +292,16 @@ func Library() []*Session {
 		}},
 		{Name: "cmany", Conn: "control", Cls: "control", Ones: true, Control: func() []part {
 			return control(loginOld("guest", "", "Many"), many...)
+		}},
+		{Name: "cpipe", Conn: "control", Cls: "control", Ones: true, Control: func() []part { // > 2 KiB
+			return control(loginOld("guest", "", "Pipe"), pipe(24, 150)...)
+		}},
+		{Name: "cpipe2", Conn: "control", Cls: "control", Ones: true, Control: func() []part { // > 4 KiB: past the scanner's first buffer
+			return control(loginNew("admin", "admin"), append([]sim.Tx{sim.NewTx(sim.TAgreed, 0, sim.Fld(sim.FUserName, []byte("Pipe Two")),
+				sim.Fld(sim.FUserIconID, sim.U16(7)), sim.Fld(sim.FOptions, sim.U16(0)))}, pipe(36, 220)...)...)
+		}},
+		{Name: "chuge", Conn: "control", Cls: "control", Ones: false, Control: func() []part { // > 64 KiB in total
+			return control(loginOld("guest", "", "Huge"), pipe(28, 5200)...)
 		}},
 		uploadSession("up", "up.bin", "", 100, -1, true),
 		uploadSession("uprsrc", "res.bin", "a comment", 60, 30, true),
